@@ -108,6 +108,58 @@ def mutexInitType : Option Nat := none
 /-- thread.c `uv_mutex_init_recursive`: PTHREAD_MUTEX_RECURSIVE (1 on Linux) -/
 def rmutexInitType : Option Nat := some 1
 
+/-! ## failures of the setup calls inside the init wrappers
+Each function takes the answers of the pthread calls in program order (an answer is consulted only
+if the call is reached) and returns (what the wrapper does, whether a live primitive is left behind). -/
+
+/-- thread.c:738-767 `uv_cond_init`: `pthread_condattr_init` (err → return), `pthread_condattr_setclock(
+    CLOCK_MONOTONIC)` (err → destroy attr, return), `pthread_cond_init` (err → same),
+    `pthread_condattr_destroy` (err → `pthread_cond_destroy`, destroy attr, return).
+    Third component: the clock the live condvar waits on was set to CLOCK_MONOTONIC. -/
+def condInit (attrInit setclock condInit attrDestroy : Int) : Out × Bool × Bool :=
+  if attrInit ≠ 0 then (.ret (-attrInit), false, false)
+  else if setclock ≠ 0 then (.ret (-setclock), false, false)
+  else if condInit ≠ 0 then (.ret (-condInit), false, true)
+  else if attrDestroy ≠ 0 then (.ret (-attrDestroy), false, true)
+  else (.ret 0, true, true)
+
+/-- thread.c:341-357 `uv_mutex_init_recursive`: `mutexattr_init` / `settype(RECURSIVE)` failing →
+    abort; `err = pthread_mutex_init`; `mutexattr_destroy` failing → abort; `return -err`.
+    Third component: the type RECURSIVE was applied to the attribute used. -/
+def rmutexInit (attrInit settype mutexInit attrDestroy : Int) : Out × Bool × Bool :=
+  if attrInit ≠ 0 then (.abort, false, false)
+  else if settype ≠ 0 then (.abort, false, false)
+  else if attrDestroy ≠ 0 then (.abort, mutexInit = 0, true)
+  else (.ret (-mutexInit), mutexInit = 0, true)
+
+/-- `uv_mutex_init` (glibc), `uv_rwlock_init`, `uv_barrier_init`, `uv_key_create`:
+    `return UV__ERR(pthread_xxx_init(...))` -/
+def simpleInit (err : Int) : Out × Bool := (.ret (-err), err = 0)
+
+/-- thread.c:639-643 `uv__sem_init`: `if (sem_init(sem, 0, value)) return UV__ERR(errno); return 0;` -/
+def semInit (r errno : Int) : Out × Bool := if r ≠ 0 then (.ret (-errno), false) else (.ret 0, true)
+
+/-- thread.c:172-180 of `uv_thread_create_ex`: `pthread_attr_init` failing → abort;
+    `pthread_attr_setstacksize` failing → abort; otherwise pthread_create is reached -/
+def attrSetup (attrInit setstack : Int) : Option Out :=
+  if attrInit ≠ 0 then some .abort else if setstack ≠ 0 then some .abort else none
+
+/-! ## which clock `uv__hrtime` reads (linux.c:1622-1660) -/
+def CLOCK_MONOTONIC : Int := 1
+def CLOCK_MONOTONIC_COARSE : Int := 6
+
+/-- `fast` = `type == UV_CLOCK_FAST`; `cache` = the static `fast_clock_id` (-1 = not probed);
+    `res` = answer of `clock_getres(CLOCK_MONOTONIC_COARSE)` (`none` = failed, else tv_nsec).
+    Returns (clock id read, new cache). -/
+def hrtimeClock (fast : Bool) (cache : Int) (res : Option Nat) : Int × Int :=
+  if !fast then (CLOCK_MONOTONIC, cache)                      -- :1640-1642
+  else if cache ≠ -1 then (cache, cache)                       -- :1644-1646
+  else
+    let id := match res with                                   -- :1648-1651
+      | some ns => if ns ≤ 1000000 then CLOCK_MONOTONIC_COARSE else CLOCK_MONOTONIC
+      | none => CLOCK_MONOTONIC
+    (id, id)                                                   -- :1653
+
 /-! ## stack size -/
 
 /-- environment read by the stack-size code -/
